@@ -53,6 +53,10 @@ pub fn run(ctx: &Ctx, ev: &mut Ev) {
             cap_offsets: vec![vec![0], vec![1], vec![2], vec![40]], last_seps: vec![false, true], stride: if tiny { 199 } else if th { 2 } else { 8 }, prefixes: strings_over(&BOM_ALPHA, 3), fills: vec![0x33], token_streams: (0, 0) };
         ev.note(format!("enum: {}", sp.describe()));
         enum_dec(ctx, ev, &sp, |case, _ng, ev| check(&mut drv, ev, case, true));
+        // doubled and mixed BOMs: only the first one may ever be removed
+        let mut sp1 = DecSpace { prefixes: vec![vec![0xEF, 0xBB, 0xBF, 0xEF, 0xBB, 0xBF], vec![0xFF, 0xFE, 0xFF, 0xFE], vec![0xFE, 0xFF, 0xFE, 0xFF], vec![0xEF, 0xBB, 0xBF, 0xFF, 0xFE], vec![0xFF, 0xFE, 0xEF, 0xBB, 0xBF], vec![0xFE, 0xFF, 0xFF, 0xFE], vec![0xEF, 0xBB, 0xEF, 0xBB, 0xBF]], maxlen: if tiny { 0 } else { 1 }, ..sp };
+        sp1.stride = if tiny { 97 } else { 1 };
+        enum_dec(ctx, ev, &sp1, |case, _ng, ev| check(&mut drv, ev, case, true));
         // str / String sinks on the families
         let sp2 = DecSpace { encs: families(), small_alpha: true, maxlen: 1, utf16_extra: 1, boms: vec![Bom::Sniff, Bom::Remove], sinks: vec![Sink::Str, Sink::String], repls: vec![false, true],
             cap_offsets: vec![vec![0], vec![1], vec![3]], last_seps: vec![false, true], stride: if tiny { 199 } else { 1 }, prefixes: strings_over(&BOM_ALPHA, 3), fills: vec![0x33], token_streams: (0, 0) };
